@@ -64,6 +64,13 @@ class LDMService:
             subscriptions = self.subscriptions.copy()
         subscriptions_to_remove = set()
         for subscription in subscriptions:
+            # A consumer that deregistered is not notified any more
+            if (
+                subscription.subscription_request.application_id
+                not in self.get_data_consumer_its_aid()
+            ):
+                subscriptions_to_remove.add(subscription)
+                continue
             search_result = self.search_data(subscription)
             if not search_result:
                 continue
